@@ -77,6 +77,9 @@ Definition dec_event (x : sx) : option event :=
   | SL [t] =>
       if sx_is "reset" t then Some EReset
       else if sx_is "logout" t then Some ELogout
+      (* (srvclose): a Server.Close() call made by the application from another goroutine has
+         RETURNED (harness/closeat.go) - the server has closed the connection *)
+      else if sx_is "srvclose" t then Some EClose
       else None
   | SL [t; a] =>
       if sx_is "w" t then option_map EWire (sx_bytes a) else None
@@ -206,6 +209,11 @@ Definition ostep (cfg : config) (m : omon) (e : event) : overdict :=
       else if negb (o_tls m || cf_insecure_auth cfg) then OBad "C09"
       else if o_authed m then OBad "C09"
       else OOk m
+  | EClose =>
+      (* Server.Close has returned: the server has given up on the connection just as after a
+         closing reply - no callback may begin and no session may be created any more (the Logout
+         of the session, and a Reset on the way there, are the end of the session, not commands) *)
+      OOk (mkOM (o_session m) (o_from m) (o_nrcpt m) (o_must_reset m) true (o_authed m) (o_tls m))
   | _ => OOk m
   end.
 
